@@ -234,43 +234,51 @@ def scan_forbidden():
 
 
 def check_props(pid, timeout=900):
-    """Compile Props/<pid>.v afresh and collect every `Print Assumptions` block.
+    """Compile Props/<pid>.v (and Props/<pid>_*.v) afresh and collect every `Print Assumptions` block.
 
     Returns dict(obligations, discharged, axioms (sorted list), log, ok, theorems)."""
-    src = os.path.join(COQ, "theories", "Props", f"{pid}.v")
-    text = open(src).read()
-    names = re.findall(r"^\s*Print Assumptions\s+([\w'.]+)\s*\.", text, flags=re.M)
-    os.makedirs(GEN, exist_ok=True)
-    os.makedirs(os.path.join(GEN, "props"), exist_ok=True)
-    out = os.path.join(GEN, "props", f"{pid}.vo")
-    p = subprocess.run(["timeout", str(timeout), "coqc"] + coq_args() + ["-o", out, src],
-                       capture_output=True, text=True, cwd=COQ)
-    for ext in (".vo", ".glob", ".vok", ".vos"):
-        try:
-            os.remove(out[:-3] + ext)
-        except OSError:
-            pass
-    log = p.stdout + p.stderr
-    res = dict(obligations=len(names), discharged=0, axioms=[], theorems=names, ok=False, log=log[-3000:],
-               unexpected=[])
-    if p.returncode != 0:
-        return res
-    # split output into blocks, one per Print Assumptions
-    blocks = re.split(r"(?=^Closed under the global context|^Axioms:)", p.stdout, flags=re.M)
-    blocks = [b for b in blocks if b.startswith("Closed under") or b.startswith("Axioms:")]
+    files = [os.path.join(COQ, "theories", "Props", f"{pid}.v")] + sorted(glob.glob(os.path.join(COQ, "theories", "Props", f"{pid}_*.v")))
+    res = dict(obligations=0, discharged=0, axioms=[], theorems=[], ok=True, log="", unexpected=[])
     axioms = set()
-    for b in blocks:
-        if b.startswith("Axioms:"):
-            for m in re.finditer(r"^([A-Za-z_][\w.']*)\s*:", b, flags=re.M):
-                if m.group(1) != "Axioms":
-                    axioms.add(m.group(1))
+    for src in files:
+        text = open(src).read()
+        names = re.findall(r"^\s*Print Assumptions\s+([\w'.]+)\s*\.", text, flags=re.M)
+        os.makedirs(os.path.join(GEN, "props"), exist_ok=True)
+        out = os.path.join(GEN, "props", os.path.basename(src)[:-2] + ".vo")
+        p = subprocess.run(["timeout", str(timeout), "coqc"] + coq_args() + ["-o", out, src],
+                           capture_output=True, text=True, cwd=COQ)
+        for ext in (".vo", ".glob", ".vok", ".vos"):
+            try:
+                os.remove(out[:-3] + ext)
+            except OSError:
+                pass
+        res["obligations"] += len(names)
+        res["theorems"] += names
+        res["log"] += (p.stdout + p.stderr)[-2000:]
+        if p.returncode != 0:
+            res["ok"] = False
+            continue
+        blocks = re.split(r"(?=^Closed under the global context|^Axioms:)", p.stdout, flags=re.M)
+        blocks = [b for b in blocks if b.startswith("Closed under") or b.startswith("Axioms:")]
+        for b in blocks:
+            if b.startswith("Axioms:"):
+                for m in re.finditer(r"^([A-Za-z_][\w.']*)\s*:", b, flags=re.M):
+                    if m.group(1) != "Axioms":
+                        axioms.add(m.group(1))
+        if len(blocks) != len(names) or not names:
+            res["ok"] = False
+        else:
+            res["discharged"] += len(blocks)
     unexpected = sorted(a for a in axioms if a not in STDLIB_AXIOMS and not a.startswith("Uint63.")
                         and not a.startswith("PrimFloat.") and not a.startswith("PrimInt63.")
                         and not a.startswith("FloatAxioms.") and not a.startswith("FloatOps."))
     res["axioms"] = sorted(axioms)
     res["unexpected"] = unexpected
-    res["discharged"] = len(blocks) if (len(blocks) == len(names) and not unexpected) else 0
-    res["ok"] = (len(blocks) == len(names)) and not unexpected and len(names) > 0
+    if unexpected:
+        res["ok"] = False
+    if not res["ok"]:
+        res["discharged"] = 0
+    res["log"] = res["log"][-3000:]
     return res
 
 
